@@ -127,6 +127,9 @@ type Exec struct {
 	allocLimitTerm  string
 	flagRegs        map[string][]*LValue
 	globalsInit     map[string]bool
+	atomicOnly      map[string][]string
+	inAtomic        bool
+	unitLockRef     string
 	sortPost        func(ex *Exec, st *State, reach string, v Val, nw string)
 }
 
